@@ -111,6 +111,8 @@ def gen_bundle(rng, bundles, depth, maxdepth, fan, counter):
             amb[0] = f"{sname}_{inner}"
             sigs.append(amb)
     bundles[name] = {"sigs": sigs, "subs": subs, "roles": list(ROLES)}
+    if rng.random() < 0.3:
+        bundles[name]["roles_via"] = "unnamed"  # class-style definition with roles from h.Roles(n)
     return name
 
 
